@@ -33,3 +33,22 @@ Proof.
   exists (CList ["CF-1.8"; "CF-1.9"]). split; [vm_compute; reflexivity|].
   eexists. vm_compute. reflexivity.
 Qed.
+
+(* Second pass (C08-fix3-1): a geometry coordinate with properties but without
+   representative values was named by the data variable's coordinates attribute
+   although no variable was created for it. *)
+Theorem C08_old_coordinates_dangling_refuted :
+  exists auxs, ~ attr_ok (created auxs) (coordinates_attr_old auxs).
+Proof.
+  exists [mkA "lon" true false (Some "x") []]. vm_compute. intros [_ H].
+  destruct (H "lon" (or_introl eq_refl)) as [E|[]]. discriminate.
+Qed.
+
+(* Second pass (C08-fix3-2): without a grid mapping the geometry container got an
+   empty grid_mapping attribute. *)
+Theorem C08_old_empty_grid_mapping_refuted :
+  exists auxs c, container_of_old auxs = Ok (Some c) /\ ~ attr_ok (created auxs) (g_gm c).
+Proof.
+  exists [mkA "lon" true true (Some "x") []]. eexists. split; [vm_compute; reflexivity|].
+  vm_compute. intros [H _]. apply H. reflexivity.
+Qed.
